@@ -406,6 +406,70 @@ func stateVariants(c *chain.Chain, spec *common.Spec, s *chain.Step, fs *flat.St
 	return out
 }
 
+// blockVariant: a pre-state variant together with the block to run on it (nil: the step's block).
+type blockVariant struct {
+	label, rule string
+	st          *flat.State
+	block       *chain.SignedBlock
+}
+
+// participationVariant fills both participation lists with every flag byte 0..7 (validator i gets (i*5+slot) mod 8 and
+// (i*3+slot+1) mod 8): the block's attestations then meet validators that already hold any subset of the
+// timely-source/target/head flags — as after late, wrong-head or wrong-target attestations included earlier. The block
+// stays valid (participation flags are only read by attestations and by epoch processing).
+func participationVariant(s *chain.Step, fs *flat.State) (out []blockVariant) {
+	if flat.ForkIndex(fs.Fork) < 1 || len(*s.Block.Body().Attestations) == 0 {
+		return nil
+	}
+	g := *fs
+	g.PrevParticipation = make([]uint64, len(fs.PrevParticipation))
+	g.CurrParticipation = make([]uint64, len(fs.CurrParticipation))
+	for i := range g.PrevParticipation {
+		g.PrevParticipation[i] = (uint64(i)*5 + uint64(s.Slot)) % 8
+	}
+	for i := range g.CurrParticipation {
+		g.CurrParticipation[i] = (uint64(i)*3 + uint64(s.Slot) + 1) % 8
+	}
+	return []blockVariant{{"pre-state:participation-flags-all-patterns", "valid", &g, nil}}
+}
+
+// exitAgeVariants: for a block with voluntary exits, the exiting validators joined later than they became eligible
+// (activation_eligibility_epoch 0, as after a deposit) and have been active for exactly SHARD_COMMITTEE_PERIOD epochs
+// (accepted) or one epoch less (refused). The block runs without its attestations, so that the committees of the
+// previous epoch (which the changed activation epochs can alter) play no role.
+func exitAgeVariants(c *chain.Chain, spec *common.Spec, s *chain.Step, fs *flat.State) (out []blockVariant) {
+	exits := *s.Block.Body().VoluntaryExits
+	if len(exits) == 0 {
+		return nil
+	}
+	cur := fs.Slot / uint64(spec.SLOTS_PER_EPOCH)
+	period := uint64(spec.SHARD_COMMITTEE_PERIOD)
+	if cur < period {
+		return nil
+	}
+	sb := s.Block.Clone(spec)
+	*sb.Body().Attestations = nil
+	for _, d := range []uint64{0, 1} {
+		if d == 1 && period == 0 {
+			continue
+		}
+		g := *fs
+		g.Validators = append([]flat.Validator(nil), fs.Validators...)
+		for _, e := range exits {
+			if vi := int(e.Message.ValidatorIndex); vi < len(g.Validators) {
+				g.Validators[vi].ActivationEligibilityEpoch = 0
+				g.Validators[vi].ActivationEpoch = cur - period + d
+			}
+		}
+		if d == 0 {
+			out = append(out, blockVariant{"pre-state:exiting-validator-aged-exactly-the-period", "valid", &g, sb})
+		} else {
+			out = append(out, blockVariant{"pre-state:exiting-validator-one-epoch-too-young", "voluntary_exit.too_young", &g, sb})
+		}
+	}
+	return out
+}
+
 // submitOddDeposit sends one unusual but well-formed deposit to the deposit contract (the contract checks
 // nothing but the amount format); the chain includes it when the protocol says so. Returns the kind.
 func submitOddDeposit(c *chain.Chain, rng *rand.Rand, key int) string {
